@@ -367,10 +367,7 @@ func TestC05Child(t *testing.T) {
 		case "rotate":
 			off := srv.VerifSnapshot().Offset
 			glow.SetCurrentTimeslot(off + 3300)
-			deadline := time.Now().Add(3 * time.Second)
-			for srv.VerifSnapshot().Offset == off && time.Now().Before(deadline) {
-				time.Sleep(2 * time.Millisecond)
-			}
+			world.WaitActive(5*time.Second, 2*time.Millisecond, func() bool { return srv.VerifSnapshot().Offset != off })
 			glow.SetCurrentTimeslot(srv.VerifSnapshot().Offset + 100)
 		}
 		j.WriteString(fmt.Sprintf("done %d\n", i))
